@@ -354,7 +354,7 @@ class FrameReceiversHarness:
                         except Exception as e:  # noqa
                             errors.append(e)
                             return
-                        got[i].append((fr.opcode, bytes(fr.data)))
+                        got[i].append((fr.opcode, env.B(fr.data)))
                 return f
 
             def main():
